@@ -49,9 +49,11 @@ TAttempt ==
             /\ Len(d) = 1
             /\ IF hdr.passthru THEN d[1] = hdr.target /\ UNCHANGED <<uses, lastIdx>>
                ELSE /\ d[1] \in {hdr.mapped[i] : i \in 1..Len(hdr.mapped)}
-                    /\ (lastIdx # 0 => IdxOf(d[1]) = (lastIdx % Len(hdr.mapped)) + 1)      \* strict rotation
                     /\ lastIdx' = IdxOf(d[1])
                     /\ uses' = [uses EXCEPT ![IdxOf(d[1])] = @ + 1]
+                    \* rotate evenly: after every dial no replacement is more than one use ahead of another
+                    \* (any rotation order satisfies this; a skewed choice does not)
+                    /\ \A i, j \in 1..Len(uses') : uses'[i] - uses'[j] <= 1
             /\ UNCHANGED <<seenA, seenB>>
        ELSE \* DNS caching: resolved addresses only, one per family the host has
             /\ ds \subseteq Allowed /\ Len(d) = Cardinality(ds)
